@@ -2844,6 +2844,10 @@ func (r *Stack) Marshal(in ...any) (err error) {
 				r.stack = xs.stack
 			} else if xc.IsInit() {
 				err = errorf("Cannot Unmarshal Condition only; must envelope in Stack")
+			} else if err == nil {
+				// nothing came of the input (e.g.: an ill-formed
+				// CONDITION row); don't pretend all went well.
+				err = errorf("Cannot marshal input into an uninitialized Stack; nothing usable found")
 			}
 		} else if sc, _ := r.config(); sc.maf != nil {
 			// use the user-authored closure marshaler
